@@ -823,6 +823,17 @@ func (env *Env) call(x ECall) TV {
 			Forall([]Binder{{jn, SInt}}, Implies(And(P, Le(IntLit(0), j), Lt(j, la.T)),
 				And(Le(IntLit(0), gj), Lt(gj, la.T), Eq(aAt(gj), bAt(j)), Eq(App(fn, SInt, gj), j))), []*Term{bAt(j)}))
 		return TV{T: P, Ty: boolT}
+	case "owned":
+		// owned(p): p was taken from a pool by the current thread and not put back yet (ghost)
+		if len(x.Args) != 1 {
+			cfail("owned(obj)")
+		}
+		v := env.comp(x.Args[0])
+		if v.T == nil || v.T.Sort != SInt {
+			cfail("owned: not an object reference")
+		}
+		w.regHeap(ownKey, ArrSort(SInt, SBool), nil)
+		return TV{T: Select(env.curHeap(ownKey), v.T), Ty: boolT}
 	case "ghost":
 		// ghost(p): the ghost integer cell attached to object p (written only through contracts)
 		if len(x.Args) != 1 {
